@@ -7,7 +7,7 @@ props = ["C%02d" % i for i in range(1, 21)]
 def run(p):
     return p, subprocess.run(["/verif/bin/sa", "-prop", p, "-no-evidence"], capture_output=True, text=True).stdout
 rc = 0
-for patch in sys.argv[1:]:
+for patch in [__import__("os").path.abspath(x) for x in sys.argv[1:]]:
     assert subprocess.run(["git", "-C", "/repo", "status", "--porcelain"], capture_output=True, text=True).stdout.strip() == "", "/repo not clean"
     if subprocess.run(["git", "-C", "/repo", "apply", patch]).returncode != 0:
         print("DOES-NOT-APPLY", patch); continue
